@@ -55,45 +55,158 @@ def _run_conn_job(seed: int, kind: str, start: int, count: int, cur: Any, out: A
     leg = parts[0]
     hist: Dict[str, int] = {}
     fails: Dict[str, Tuple[int, Any, str]] = {}
-    stats = {'max_rounds': 0, 'max_out_ratio': 0.0}     # ratio: response bytes per input byte beyond the constant part
+    stats: Dict[str, Any] = {'max_rounds': 0, 'max_out_ratio': 0.0, 'max_case_s': 0.0}     # ratio: response bytes per input byte beyond the constant part
 
-    async def run_all() -> None:
-        for i in range(start, start + count):
-            cur.value = i
-            cseed = f'{seed}:{kind}:{i}'
+    async def one(i: int) -> Dict[str, Any]:
+        cseed = f'{seed}:{kind}:{i}'
+        try:
+            if leg == 'packet':
+                return await C.packet_case(parts[1], parts[2], cseed)
+            if leg == 'stream':
+                return await C.stream_case(parts[1], parts[2], cseed)
+            if leg == 'sftp-server':
+                return await S.sftp_server_case(cseed)
+            if leg == 'sftp-client':
+                return await S.sftp_client_case(cseed)
+            raise KeyError(kind)
+        except C.Spin as e:
+            return {'label': 'spin outside measure', 'spin': True, 'kind': leg, 'spin_in_loop': str(e),
+                    'phase': parts[1] if len(parts) > 1 else '', 'role': parts[2] if len(parts) > 2 else ''}
+
+    def wall_clock_only(o: Dict[str, Any]) -> bool:
+        """the only evidence of a spin is the wall-clock alarm (which a loaded machine can trip)"""
+        why = str(o.get('spin_in_send') or o.get('spin_in_loop') or '')
+        return bool(o.get('spin')) and 'output budget' not in why and \
+            not any('output budget' in str(w) for _n, w in o.get('loop_errors', []))
+
+    def confirmed(i: int) -> Optional[Dict[str, Any]]:
+        """re-run a case whose spin was only seen by the clock; None if it does not reproduce"""
+        for _ in range(2):
             try:
-                if leg == 'packet':
-                    o = await C.packet_case(parts[1], parts[2], cseed)
-                elif leg == 'stream':
-                    o = await C.stream_case(parts[1], parts[2], cseed)
-                elif leg == 'sftp-server':
-                    o = await S.sftp_server_case(cseed)
-                elif leg == 'sftp-client':
-                    o = await S.sftp_client_case(cseed)
-                else:
-                    raise KeyError(kind)
-            except C.Spin:
-                o = {'label': 'spin outside measure', 'spin': True, 'kind': leg, 'phase': parts[1] if len(parts) > 1 else '',
-                     'role': parts[2] if len(parts) > 2 else ''}
+                o2 = pair.run(one(i), timeout=120)
+            except C.Spin as e:
+                o2 = {'spin': True, 'spin_in_loop': str(e), 'kind': leg, 'label': 'spin in the event loop'}
+            except Exception:
+                return None
+            if not o2.get('spin'):
+                return None
+        return o2
+
+    def record(i: int, o: Dict[str, Any]) -> None:
+        key = f'{kind}:{C.outcome_of(o)}'
+        hist[key] = hist.get(key, 0) + 1
+        stats['max_rounds'] = max(stats['max_rounds'], o.get('rounds', 0))
+        if o.get('input_len'):
+            stats['max_out_ratio'] = max(stats['max_out_ratio'], max(0, o.get('out_bytes', 0) - C.OUT_A) / max(1, o['input_len']))
+        for sig, what in C.failures_of(o):
+            if sig not in fails:
+                rep = {k: o.get(k) for k in ('packets', 'npackets', 'data', 'data_len', 'cuts', 'phase', 'role', 'label',
+                                             'script', 'kind', 'stream_kind')}
+                rep['case_seed'] = f'{seed}:{kind}:{i}'
+                fails[sig] = (i, rep, what)
+
+    pending_confirm: List[int] = []
+
+    async def run_from(first: int) -> None:
+        for i in range(first, start + count):
+            cur.value = i
+            t_case = time.time()
+            try:
+                o = await one(i)
             except Exception as e:           # harness trouble, counted but not a finding
                 hist['harness-error:' + type(e).__name__] = hist.get('harness-error:' + type(e).__name__, 0) + 1
                 continue
-            key = f'{kind}:{C.outcome_of(o)}'
-            hist[key] = hist.get(key, 0) + 1
-            stats['max_rounds'] = max(stats['max_rounds'], o.get('rounds', 0))
-            if o.get('input_len'):
-                stats['max_out_ratio'] = max(stats['max_out_ratio'], max(0, o.get('out_bytes', 0) - C.OUT_A) / max(1, o['input_len']))
-            for sig, what in C.failures_of(o):
-                if sig not in fails:
-                    rep = {k: o.get(k) for k in ('packets', 'npackets', 'data', 'data_len', 'cuts', 'phase', 'role', 'label',
-                                                 'script', 'kind', 'stream_kind')}
-                    rep['case_seed'] = cseed
-                    fails[sig] = (i, rep, what)
-    try:
-        pair.run(run_all(), timeout=3600)
-    except BaseException as e:       # noqa: B902
-        hist['harness-error:job:' + type(e).__name__] = 1
+            if time.time() - t_case > stats.get('max_case_s', 0.0):
+                stats['max_case_s'] = time.time() - t_case
+                stats['slowest'] = f'{seed}:{kind}:{i}'
+            if wall_clock_only(o):
+                pending_confirm.append(i)
+                continue
+            record(i, o)
+    nxt = start
+    while nxt < start + count:
+        try:
+            pair.run(run_from(nxt), timeout=7200)
+            break
+        except C.Spin:
+            # the wall-clock alarm fired inside the event loop itself: check the running case on its own, go on after it
+            pending_confirm.append(cur.value)
+            nxt = cur.value + 1
+        except BaseException as e:       # noqa: B902
+            hist[f'harness-error:job:{type(e).__name__}@{kind}:{cur.value}'] = 1
+            break
+    for i in pending_confirm:
+        o2 = confirmed(i)
+        if o2 is None:
+            hist[f'{kind}:slow-once-not-reproduced'] = hist.get(f'{kind}:slow-once-not-reproduced', 0) + 1
+            try:
+                record(i, pair.run(one(i), timeout=120))
+            except BaseException:       # noqa: B902
+                pass
+        else:
+            o2.setdefault('phase', parts[1] if len(parts) > 1 else '')
+            o2.setdefault('role', parts[2] if len(parts) > 2 else '')
+            record(i, o2)
     out.send(('done', hist, fails, count, stats))
+
+
+def _run_corpus_job(seed: int, kind: str, start: int, count: int, cur: Any, out: Any) -> None:
+    from props import _c10_conn as C
+    from props import _c10_corpus as K
+    items = K.corpus_items()
+    hist: Dict[str, int] = {}
+    fails: Dict[str, Tuple[int, Any, str]] = {}
+    for i in range(start, min(start + count, len(items))):
+        cur.value = i
+        prefix, thunk = items[i]
+        try:
+            found = thunk()
+        except C.Spin as e:
+            found = [(f'c10:spins:{prefix}', f'{prefix}: {e}', {'kind': 'corpus-item', 'index': i})]
+        except Exception as e:       # harness trouble (e.g. the mutated library cannot even connect)
+            hist[f'harness-error:{prefix}:{type(e).__name__}'] = hist.get(f'harness-error:{prefix}:{type(e).__name__}', 0) + 1
+            continue
+        key = f'{prefix}:' + ('fails' if found else 'holds')
+        hist[key] = hist.get(key, 0) + 1
+        for sig, what, rep in found:
+            fails.setdefault(sig, (i, rep, what))
+    out.send(('done', hist, fails, count))
+
+
+def _run_call_job(seed: int, kind: str, start: int, count: int, cur: Any, out: Any) -> None:
+    """run one registered callable in the child and send its (picklable) result back"""
+    fn = CALLS[kind]
+    out.send(('result', fn()))
+
+
+CALLS: Dict[str, Any] = {}
+
+
+def in_child(name: str, fn: Any, timeout: float) -> Tuple[bool, Any]:
+    """Run fn() in a forked child with a hard wall-clock limit.  Returns (True, result) or (False, reason)."""
+    CALLS[name] = fn
+    cur = mp.Value('i', 0)
+    rx, tx = mp.Pipe(duplex=False)
+    proc = mp.Process(target=_child, args=('_run_call_job', 0, name, 0, 1, cur, tx), daemon=True)
+    proc.start()
+    tx.close()
+    try:
+        if rx.poll(timeout):
+            try:
+                msg = rx.recv()
+            except EOFError:
+                return False, 'child died'
+            if msg[0] == 'result':
+                return True, msg[1]
+            return False, str(msg[1])[-400:]
+        return False, f'no result within {timeout:.0f}s'
+    finally:
+        try:
+            proc.kill()
+        except Exception:
+            pass
+        proc.join(5)
+        CALLS.pop(name, None)
 
 
 def _child(fn_name: str, seed: int, kind: str, start: int, count: int, cur: Any, out: Any) -> None:
@@ -153,6 +266,9 @@ def run_jobs(seed: int, jobs: List[Tuple[str, str, int, int]], workers: int, dea
         if len(msg) > 4:
             stats['max_rounds'] = max(stats['max_rounds'], msg[4]['max_rounds'])
             stats['max_out_ratio'] = max(stats['max_out_ratio'], msg[4]['max_out_ratio'])
+            if msg[4].get('max_case_s', 0.0) > stats.get('max_case_s', 0.0):
+                stats['max_case_s'] = msg[4]['max_case_s']
+                stats['slowest'] = msg[4].get('slowest')
 
     while ctx_jobs or running:
         while ctx_jobs and len(running) < workers:
@@ -162,6 +278,16 @@ def run_jobs(seed: int, jobs: List[Tuple[str, str, int, int]], workers: int, dea
                 break
             running.append(Running(ctx_jobs.pop(0), seed))
         time.sleep(0.02)
+        if time.time() > deadline + 90 and running:
+            notes.append(f'hard deadline: {len(running)} workers stopped before finishing their jobs')
+            for r in running:
+                try:
+                    r.proc.kill()
+                except Exception:
+                    pass
+            running = []
+            ctx_jobs = []
+            break
         for r in list(running):
             finished = False
             if r.rx.poll():
@@ -205,6 +331,8 @@ def run_jobs(seed: int, jobs: List[Tuple[str, str, int, int]], workers: int, dea
                         data = P.gen_case(r.kind, random.Random(f'{seed}:{r.kind}:{i}')).hex()
                     except Exception:
                         data = None
+                elif r.fn == '_run_corpus_job':
+                    data = {'kind': 'corpus-item', 'index': i}
                 else:
                     data = {'case_seed': f'{seed}:{r.kind}:{i}', 'kind': fn_name}
                 fails.setdefault(sig, (r.kind, i, data,
